@@ -11,24 +11,24 @@ PROPS = {'C06': {'C06'}, 'C07': {'C07'}, 'C08': {'C08'}, 'C09': {'C09'},
 # VERIF_SEED names the same set of runs on every machine.
 PLANS = {
     'C06': {'quick': [('frag', 9000), ('corrupt', 3000), ('random', 1000),
-                      ('long', 300)],
+                      ('long', 300), ('threads', 400)],
             'thorough': [('frag', 220000), ('corrupt', 60000),
-                         ('random', 20000), ('long', 8000)]},
-    'C07': {'quick': [('frag', 8000), ('sweep', 1200)],
-            'thorough': [('frag', 200000), ('sweep', 20000)]},
+                         ('random', 20000), ('long', 8000), ('threads', 12000)]},
+    'C07': {'quick': [('frag', 8000), ('sweep', 1200), ('threads', 400)],
+            'thorough': [('frag', 200000), ('sweep', 20000), ('threads', 12000)]},
     'C08': {'quick': [('corrupt', 10000), ('random', 1500), ('frag', 800),
                       ('long', 300), ('truncsweep', 400), ('bytesweep', 150)],
             'thorough': [('corrupt', 250000), ('random', 30000),
                          ('frag', 10000), ('long', 8000),
                          ('truncsweep', 12000), ('bytesweep', 3000)]},
     'C09': {'quick': [('corrupt', 12000), ('random', 2000), ('long', 500),
-                      ('truncsweep', 400), ('bytesweep', 150)],
+                      ('truncsweep', 400), ('bytesweep', 150), ('threads', 600)],
             'thorough': [('corrupt', 300000), ('random', 40000),
                          ('long', 12000), ('truncsweep', 12000),
-                         ('bytesweep', 3000)]},
-    'C20': {'quick': [('frag', 7000), ('corrupt', 3000), ('random', 2500)],
+                         ('bytesweep', 3000), ('threads', 15000)]},
+    'C20': {'quick': [('frag', 7000), ('corrupt', 3000), ('random', 2500), ('threads', 400)],
             'thorough': [('frag', 180000), ('corrupt', 60000),
-                         ('random', 60000)]},
+                         ('random', 60000), ('threads', 12000)]},
 }
 
 LEVEL = {'C06': 'exploration', 'C07': 'fault_enumeration',
